@@ -173,6 +173,34 @@ theorem merge_with_schema_spec (llen : Nat) (lnulls : Option Nulls) (ln : List S
     · exact ⟨(mergeWS_validity 64 _ _ m fn ft h).1,
         mergeWS_spec_le 64 64 (Nat.le_refl _) llen lnulls ln lc rlen rnulls rn rc fn ft m hwl hwr hul hur h⟩
 
+/-- the LIST arm of `merge_with_schema` (a list column present on both sides; also `merge_list_child_values` for nested
+    lists), as a composition rule: the merged list has the rows of the inputs, is NULL exactly where both are NULL, and its
+    entry `i` is the window `[a_i, b_i)` of the recursively merged values `vals`; the same window of the trimmed values of
+    the left list is entry `i` of the left list, and - for a right list with the same entry lengths - of the right list.
+    With `merge_with_schema_spec` for `vals` (struct items) this gives the element-wise content of list-of-struct merges. -/
+theorem merge_with_schema_list_arm_spec (f : Nat) (lg : Bool) (item : Ty)
+    (lg1 : Bool) (off len : Nat) (nulls : Option Nulls) (offs : List Nat) (child : Arr)
+    (lg2 : Bool) (roff rlen : Nat) (rnulls : Option Nulls) (roffs : List Nat) (rchild : Arr) (c : Arr)
+    (hwl : wf (.list lg1 off len nulls offs child) = true) (hwr : wf (.list lg2 roff rlen rnulls roffs rchild) = true)
+    (h : mergeCell (f + 1) (.list lg item) (.list lg1 off len nulls offs child)
+          (.list lg2 roff rlen rnulls roffs rchild) = .ok c) :
+    rlen = len ∧ c.len = len ∧
+    ∃ vals, mergeCell f item (trimmedValues (.list lg1 off len nulls offs child))
+        (trimmedValues (.list lg2 roff rlen rnulls roffs rchild)) = .ok vals ∧
+      ∀ i, i < len →
+        (logical c).getD i .null =
+          (if validAt nulls i || validAt rnulls i then
+            .list (sub (logical vals) ((rebasedOffs offs off len).getD i 0) ((rebasedOffs offs off len).getD (i + 1) 0))
+           else .null)
+        ∧ sub (logical child) (offs.getD (off + i) 0) (offs.getD (off + i + 1) 0)
+            = sub (logical (trimmedValues (.list lg1 off len nulls offs child)))
+                ((rebasedOffs offs off len).getD i 0) ((rebasedOffs offs off len).getD (i + 1) 0)
+        ∧ (rebasedOffs roffs roff rlen = rebasedOffs offs off len →
+            sub (logical rchild) (roffs.getD (roff + i) 0) (roffs.getD (roff + i + 1) 0)
+              = sub (logical (trimmedValues (.list lg2 roff rlen rnulls roffs rchild)))
+                  ((rebasedOffs offs off len).getD i 0) ((rebasedOffs offs off len).getD (i + 1) 0)) :=
+  mergeCell_list_spec f lg item lg1 off len nulls offs child lg2 roff rlen rnulls roffs rchild c hwl hwr h
+
 /-! ### fuel: the recursion depth of the model's `merge` / `merge_with_schema` is bounded by the nesting depth -/
 
 /-- with fuel above the nesting depth of the left batch, `mergeStruct` returns the same result for every larger fuel
@@ -248,6 +276,9 @@ example : ∃ m, mergeBatch exL exR = .ok m := ⟨_, rfl⟩
 example : (mwsRow ["s"] [.struct ["a"] [.int]] ["s"] [.struct ["b"] [.int]] ["s"] [.struct ["b", "a"] [.int, .int]]
     (.struct ["s"] [.null]) (.struct ["s"] [.struct ["b"] [.int 3]])).isSome = true := by
   simp [mwsRow, rowOf, mwsVals, findKindTy, sameKind, Ty.isStruct, fieldV, lookupV, Value.isNull]
+/-- a sliced list column (offsets 2,3,6 of [0,2,3,6]) merged with itself -/
+example : ∃ c, mergeCell 2 (.list false .int) (.list false 1 2 none [0, 2, 3, 6] (.prim false 0 6 none [1, 2, 3, 4, 5, 6]))
+    (.list false 1 2 none [0, 2, 3, 6] (.prim false 0 6 none [1, 2, 3, 4, 5, 6])) = .ok c := ⟨_, rfl⟩
 example : depth exL + 1 ≤ 64 ∧ 2 * depth exL + 1 ≤ 64 := by decide
 example : wf exR = true ∧ uniq exL = true ∧ uniq exR = true := by decide
 example : ∃ m, mergeWS 64 exL exR ["s"] [.struct ["b", "a"] [.int, .int]] = .ok m := ⟨_, rfl⟩
